@@ -448,6 +448,18 @@ def object_shapes(nm: Namer) -> Dict[str, Callable[[T, Ctx], Optional[T]]]:
         o2 = Obj("dataclass", n2, (F("a", x), F("back", Opt(Ref(n1)), default="None", has_default=True, default_value=None)))
         return Obj("dataclass", n1, (F("b", INT), F("other", Opt(o2), default="None", has_default=True, default_value=None)))
 
+    def nested_cycles(x, c):
+        # two cycles sharing a class (P -> R -> K -> R and P -> S -> K -> P): every class is recursive
+        nP, nR, nK, nS = nm("O"), nm("O"), nm("O"), nm("O")
+
+        def opt(name, t):
+            return F(name, Opt(t), default="None", has_default=True, default_value=None)
+
+        oK = Obj("dataclass", nK, (opt("r", Ref(nR)), opt("p", Ref(nP))))
+        oR = Obj("dataclass", nR, (opt("k", oK),))
+        oS = Obj("dataclass", nS, (opt("k", Ref(nK)),))
+        return Obj("dataclass", nP, (F("a", x), opt("r", oR), opt("s", oS)))
+
     def field_cons(x, c):
         rx = x
         while isinstance(rx, (NewT,)):
